@@ -130,7 +130,21 @@ def has_scheduled(layers):
     return any(scheduled_nodes(t) for l in layers for t in layer_trees(l))
 
 
+def is_rec(node):
+    return node["t"].startswith("rec")
+
+
+def node_label(node):
+    return "RecDraws" if is_rec(node) else H.node_label(node)
+
+
+def node_depth(node):
+    return (1 if node["t"] == "rec_compose" else 0) if is_rec(node) else H.node_depth(node)
+
+
 def stochastic_layer(layer):
+    if any(is_rec(t) for t in layer_trees(layer)):
+        return True
     if layer["w"] in ("mix", "byol_mv", "minaug_mv", "minaug_x", "mugs_mv"):
         return True
     return any(H.has_stochastic_leaf(t) for t in layer_trees(layer))
@@ -180,14 +194,61 @@ def seen_index(n, layers, pos, j):
     return j
 
 
+# ------------------------------------------------------------------------------------------------- recording transform
+REC_FLOATS, REC_INTS = 6, 3
+
+
+def _make_rec_class():
+    from kappadata.transforms.base.kd_stochastic_transform import KDStochasticTransform
+
+    class RecDraws(KDStochasticTransform):
+        """a stochastic KDTransform the way a user writes one (cf. tests_util ReplaceWithRandomTransform): ignores its input and
+        returns the raw draws it took from its generator - 6 rng.random() values and 3 full-range 64-bit integers"""
+
+        def __call__(self, x, ctx=None):
+            fl = [float(v) for v in self.rng.random(REC_FLOATS)]
+            it = [int(v) for v in self.rng.integers(0, 2 ** 64, size=REC_INTS, dtype=np.uint64)]
+            return fl + it
+
+    RecDraws.__module__ = __name__
+    RecDraws.__qualname__ = "RecDraws"
+    return RecDraws
+
+
+RecDraws = _make_rec_class()
+
+
+def draw_keys(value):
+    """the 53 leading bits of every raw 64-bit draw recorded in an output of RecDraws (nested lists / tuples of views allowed):
+    rng.random() is (raw >> 11) * 2^-53, the integers are the raw draws themselves"""
+    out = []
+    if isinstance(value, (list, tuple)):
+        for v in value:
+            out += draw_keys(v)
+    elif isinstance(value, float):
+        out.append(int(value * 2 ** 53))
+    elif isinstance(value, int) and not isinstance(value, bool):
+        out.append(value >> 11)
+    return out
+
+
+def build_tree(node):
+    if node["t"] == "rec":
+        return RecDraws()
+    if node["t"] == "rec_compose":
+        import kappadata.transforms as kdt
+        return kdt.KDComposeTransform([kdt.KDIdentityTransform(), RecDraws()])
+    return H.build_composition(node)
+
+
 # ------------------------------------------------------------------------------------------------- building
 def _build_tree_for_wrapper(node):
     """transform argument of a wrapper: instance, bare list (implicit compose, resolved by the wrapper) or dict(kind=...)"""
     if node["t"] == "compose" and node.get("implicit"):
-        return [H.build_composition(m) for m in node["members"]]
+        return [build_tree(m) for m in node["members"]]
     if node["t"] == "leaf" and node.get("via") == "dict":
         return H._leaf_as_dict(node)
-    return H.build_composition(node)
+    return build_tree(node)
 
 
 def _mv_config(cfg):
@@ -205,8 +266,8 @@ def _mv_config(cfg):
     if form == "dict_kind":
         return (n, H._leaf_as_dict(tree))
     if form == "bare_list":
-        return [H.build_composition(m) for m in tree["members"]]
-    t = H.build_composition(tree)
+        return [build_tree(m) for m in tree["members"]]
+    t = build_tree(tree)
     if form == "obj":
         return t
     if form == "tuple":
@@ -669,6 +730,43 @@ def gen_fused(rng, flags):
     layers.append({"w": "xtw", "item": "x", "tree": probe_tree(rng.choice(PROBE_SHAPES), T), "seed": gen_seed(rng), "in": T})
     mode = rng.choice(["x class", "x class", "class x", "index x class", "class x index", "x"])
     return {"family": "fused", "n": n, "data": data, "layers": layers, "mode": mode, "return_ctx": rng.random() < 0.3}
+
+
+def gen_draw_probe(rng):
+    """a seeded transform-wrapper family over the recording transform: the raw draws of every index are observable"""
+    wrapper = rng.choice(["xtw", "xtw", "xtw", "xtw", "mv", "mv", "semseg"])
+    n = rng.choice([6, 7, 8, 10])
+    T = H.t_img("tensor", 3, 8, 8)
+    data = {"T": T, "seed": rng.randrange(10 ** 6), "const": rng.random() < 0.5}
+    layers = []
+    n_cur = n
+    if rng.random() < 0.2:
+        l = gen_remap(rng, n_cur)
+        layers.append(l)
+        n_cur = layer_len(l, n_cur)
+    tree = {"t": rng.choice(["rec", "rec", "rec_compose"]), "in": T}
+    mode = "x"
+    if wrapper == "xtw":
+        item = rng.choice(["x", "x", "y", "source", "target"])
+        layers.append({"w": "xtw", "item": item, "tree": tree, "seed": gen_seed(rng), "in": T})
+        mode = item
+    elif wrapper == "mv":
+        cfgs = [{"form": rng.choice(MV_FORMS_TREE), "n": rng.choice([1, 2]), "tree": tree}]
+        if rng.random() < 0.4:
+            cfgs.insert(rng.randrange(2), {"form": rng.choice(MV_FORMS_PLAIN), "n": 1, "tree": None})
+        layers.append({"w": "mv", "configs": cfgs, "seed": gen_seed(rng), "in": T})
+    else:
+        Ts = H.t_semseg("tensor", 8, 8, ncls=5)
+        data["T"] = Ts
+        members = [dict(tree, **{"in": H.t_img("tensor", 3, 8, 8)})]
+        if rng.random() < 0.5:
+            members.insert(0, leaf("semseg_random_horizontal_flip", {"p": 0.5}, Ts))
+        layers.append({"w": "semseg", "members": members, "seed": gen_seed(rng), "in": Ts})
+    pos = len(layers) - 1
+    if wrapper != "semseg" and rng.random() < 0.2:
+        layers.append(gen_remap(rng, n_cur))
+    return {"family": "probe", "n": n, "data": data, "layers": layers, "mode": mode, "return_ctx": False,
+            "probe": {"layer": pos, "rule": "draws", "shape": tree["t"], "wrapper": wrapper}}
 
 
 # ------------------------------------------------------------------------------------------------- request forms
